@@ -14,36 +14,13 @@ pub fn create_module() -> Scope {
         list.push(s.get(name!(val))?);
         Ok(Value::List(list, Some(sep), bra))
     });
-    def!(f, index(list, value), |s| match s.get(name!(list))? {
-        Value::List(v, _, _) => {
-            let value = s.get(name!(value))?;
-            for (i, v) in v.iter().enumerate() {
-                if v == &value {
-                    return Ok(Value::scalar(i + 1));
-                }
-            }
-            Ok(Value::Null)
-        }
-        Value::Map(map) => match s.get(name!(value))? {
-            Value::List(ref l, Some(ListSeparator::Space), _)
-                if l.len() == 2 =>
-            {
-                for (i, (k, v)) in map.iter().enumerate() {
-                    if *k == l[0] && *v == l[1] {
-                        return Ok(Value::scalar(i + 1));
-                    }
-                }
-                Ok(Value::Null)
-            }
-            _ => Ok(Value::Null),
-        },
-        v => {
-            if v == s.get(name!(value))? {
-                Ok(Value::scalar(1))
-            } else {
-                Ok(Value::Null)
-            }
-        }
+    def!(f, index(list, value), |s| {
+        let (list, _, _) = get_list(s.get(name!(list))?);
+        let value = s.get(name!(value))?;
+        Ok(list
+            .iter()
+            .position(|v| v == &value)
+            .map_or(Value::Null, |i| Value::scalar(i + 1)))
     });
     def!(f, is_bracketed(list), |s| Ok(match s.get(name!(list))? {
         Value::List(_, _, true) => Value::True,
